@@ -198,8 +198,28 @@ def _run(case):
         # containers of a used detector may leak into this one.
         det = M.processing.FeatureEdgeDetector(only_border=case["only_border"], flag_corners=case["flag_corners"],
                                                corner_order=case["order"], compute_feature_graph=case.get("graph", False), verbose=False)
+        def move_to(V):
+            # vertices moved IN PLACE through the container API (same representation as the mesh was built with)
+            for i, v in enumerate(_coords(dict(case, V=V))): m.vertices[i] = M.Vec(v)
+        other = None
         for pr in case.get("prior") or []:
             try:
+                if pr.get("other"):
+                    # a detector run on another mesh object in between (a sharply folded hinge with a declared hard edge)
+                    if other is None:
+                        od = M.mesh.RawMeshData()
+                        od.vertices += [M.Vec(0., 0., 0.), M.Vec(1., 0., 0.), M.Vec(0., 1., 0.), M.Vec(1., 1., 2.), M.Vec(2., 0., 2.)]
+                        od.edges += [(1, 2)]
+                        od.faces += [[0, 1, 2], [2, 1, 3], [1, 4, 3]]
+                        other = M.mesh.SurfaceMesh(od)
+                    if pr.get("same_det"):
+                        det.only_border, det.flag_corners, det.corner_order = pr["only_border"], pr["flag_corners"], pr["order"]
+                        det.run(other)
+                    else:
+                        M.processing.FeatureEdgeDetector(only_border=pr["only_border"], flag_corners=pr["flag_corners"],
+                                                         corner_order=pr["order"], compute_feature_graph=False, verbose=False).run(other)
+                    continue
+                if pr.get("V"): move_to(pr["V"])
                 if case.get("normals") and pr.get("normals"):
                     for f, n in enumerate(pr["normals"]): attr[f] = M.Vec(*n)
                 if pr.get("same_det"):
@@ -211,6 +231,7 @@ def _run(case):
                                                      compute_feature_graph=pr.get("graph", False), verbose=False).run(m)
             except Exception as e:  # noqa
                 res["prior_err"] = e
+        if any(pr.get("V") for pr in case.get("prior") or []): move_to(case["V"])
         if case.get("normals") and case.get("prior"):
             for f, n in enumerate(case["normals"]): attr[f] = M.Vec(*n)
         det.only_border, det.flag_corners, det.corner_order = case["only_border"], case["flag_corners"], case["order"]
@@ -285,12 +306,14 @@ def model_request(case):
         toks += [str(len(case["starts"]))] + [str(s) for s in case["starts"]]
         return " ".join(toks)
     hard = set(case["hard"])
-    runs = [(1 if pr.get("same_det") else 0, pr["only_border"], dict(case, normals=pr.get("normals") or case.get("normals")))
-            for pr in (case.get("prior") or [])] + [(1, case["only_border"], case)]
+    inj = 1 if case.get("normals") else 0
+    runs = [(1 if pr.get("same_det") else 0, pr["only_border"],
+             dict(case, normals=pr.get("normals") or case.get("normals"), V=pr.get("V") or case["V"]))
+            for pr in (case.get("prior") or []) if not pr.get("other")] + [(1, case["only_border"], case)]
     toks.append(str(len(runs)))
     for sd, ob, cc in runs:
         dq = edge_dq(cc, spec)
-        toks += [str(sd), "1" if ob else "0", str(len(dq))]
+        toks += [str(sd), "1" if ob else "0", str(inj), str(len(dq))]
         for e, x in enumerate(dq):
             d, q = x if x is not None else (Fraction(0), Fraction(1))
             toks += ["1" if e in hard else "0", _frac(d), _frac(q)]
@@ -496,10 +519,11 @@ def _feat_injected(rng, max_faces):
     return s, normals
 
 
-def _fold_strip(rng):
-    """triangulated strip/grid folded along its rows: row i lies in a plane turned by a chosen dihedral angle"""
-    nu, nv = rng.randint(2, 5), rng.randint(2, 5)
-    angs = [rng.choice([10, 25, 35, 38.5, 45, 58, 62, 75, 90, 120, 150]) * rng.choice([1, -1]) for _ in range(nu)]
+FOLD_ANGLES = [10, 25, 35, 38.5, 45, 58, 62, 75, 90, 120, 150]
+
+
+def _fold_geometry(nu, nv, angs):
+    """vertex positions of a strip of nu rows folded along its rows by the dihedral angles `angs` (degrees, signed)"""
     V, y, z, th = [], 0.0, 0.0, 0.0
     rows = []
     for i in range(nu):
@@ -508,13 +532,41 @@ def _fold_strip(rng):
         y += math.cos(th); z += math.sin(th)
     for i in range(nu):
         for j in range(nv):
-            V.append([G.dy(j + 0.0, 64), G.dy(rows[i][0], 1024), G.dy(rows[i][1], 1024)])
+            V.append([float(G.dy(j + 0.0, 64)), float(G.dy(rows[i][0], 1024)), float(G.dy(rows[i][1], 1024))])
+    return V
+
+
+def _fold_strip(rng):
+    """triangulated strip/grid folded along its rows: row i lies in a plane turned by a chosen dihedral angle"""
+    nu, nv = rng.randint(2, 5), rng.randint(2, 5)
+    angs = [rng.choice(FOLD_ANGLES) * rng.choice([1, -1]) for _ in range(nu)]
+    V = _fold_geometry(nu, nv, angs)
     F = []
     for i in range(nu - 1):
         for j in range(nv - 1):
             a, b, c, d = i * nv + j, (i + 1) * nv + j, (i + 1) * nv + j + 1, i * nv + j + 1
             F += ([[a, d, c], [a, c, b]] if rng.random() < 0.5 else [[a, d, b], [d, c, b]])
-    return {"V": [[float(x) for x in v] for v in V], "F": F, "tag": "fold"}
+    return {"V": V, "F": F, "tag": "fold", "fold": [nu, nv, angs]}
+
+
+def _rigid(rng, V):
+    """an exact rigid motion (signed permutation of the axes with determinant +1, then a dyadic translation)"""
+    perm, sg = rng.choice([((0, 1, 2), (1, 1, 1)), ((1, 0, 2), (-1, 1, 1)), ((2, 0, 1), (1, 1, 1)), ((0, 2, 1), (1, -1, 1)),
+                           ((1, 2, 0), (1, 1, 1)), ((0, 1, 2), (-1, -1, 1))])
+    t = [rng.randint(-8, 8) / 4.0 for _ in range(3)]
+    return [[sg[k] * v[perm[k]] + t[k] for k in range(3)] for v in V]
+
+
+def _moved_geometry(rng, s, V):
+    """where the vertices of the SAME mesh were at the time of an earlier run: the strip folded by other angles (dihedral
+    angles cross 60° and 36.87° in both directions), the surface with other heights, or a rigid motion of it"""
+    r = rng.random()
+    if s.get("fold") and r < 0.6:
+        nu, nv, angs = s["fold"]
+        return _fold_geometry(nu, nv, [rng.choice(FOLD_ANGLES) * rng.choice([1, -1]) for _ in angs]), "refolded"
+    if r < 0.8:
+        return _rigid(rng, V), "rigid-motion"
+    return [[v[0], v[1], v[2] + rng.randint(-48, 48) / 64.0] for v in V], "heights-changed"
 
 
 def _feat_case(rng, max_faces):
@@ -532,7 +584,7 @@ def _feat_case(rng, max_faces):
     case = {"t": "f", "V": s["V"], "F": s["F"], "tag": kind + ":" + s["tag"], "normals": normals, "hard": hard,
             "only_border": rng.random() < 0.2, "flag_corners": rng.random() < 0.7, "order": rng.choice([4, 4, 6, 3, 8]),
             "graph": rng.random() < 0.3}
-    if rng.random() < 0.3:
+    if rng.random() < 0.4:
         # the detector has already run on this mesh object, 1-2 times, with other options (and other injected normals)
         case["prior"] = []
         for _ in range(rng.randint(1, 2)):
@@ -540,6 +592,12 @@ def _feat_case(rng, max_faces):
                   "same_det": rng.random() < 0.45}
             if normals is not None:
                 pr["normals"] = [_unit_with_z(rng, rng.choice([-0.5, 0.0, 0.25, 0.6, 0.9, 1.0])) for _ in normals]
+            elif rng.random() < 0.7:
+                # the vertices were elsewhere when that run was made (moved in place afterwards)
+                pr["V"], pr["moved"] = _moved_geometry(rng, s, case["V"])
+            if rng.random() < 0.25:
+                # that run was made on ANOTHER mesh object (state shared between instances / detectors must not leak)
+                pr["other"] = True
             case["prior"].append(pr)
         if case["prior"][-1]["only_border"] and rng.random() < 0.5: case["prior"][-1]["only_border"] = False
         if rng.random() < 0.4: case["only_border"] = True
@@ -551,19 +609,24 @@ def _feat_case(rng, max_faces):
     if r < 0.25:
         case["vrep"] = rng.choice(VREPS[1:4])
     elif r < 0.45 and normals is None:
+        allV = [case["V"]] + [p["V"] for p in case.get("prior") or [] if p.get("V")]
         den = 1
-        while any(abs(x * den - round(x * den)) > 0 for v in case["V"] for x in v) and den < 2 ** 20: den *= 2
-        if den < 2 ** 20 and max(abs(x) for v in case["V"] for x in v) * den < 2 ** 24:
+        while any(abs(x * den - round(x * den)) > 0 for VV in allV for v in VV for x in v) and den < 2 ** 20: den *= 2
+        if den < 2 ** 20 and max(abs(x) for VV in allV for v in VV for x in v) * den < 2 ** 24:
             case["V"] = [[float(round(x * den)) for x in v] for v in case["V"]]
+            for p in case.get("prior") or []:
+                if p.get("V"): p["V"] = [[float(round(x * den)) for x in v] for v in p["V"]]
             case["vrep"] = rng.choice(["int", "npint"])
     if rng.random() < 0.3: case["frep"] = rng.choice(FREPS[1:])
     # own geometry: stay away from the thresholds (float normalisation); injected normals: every interior edge has one face
     # with normal (0,0,1), so the float dot product IS the z of the other normal, exactly - on-threshold values are kept
     if normals is None:
-        for x in edge_dq(case, spec):
-            if x is None: continue
-            c = cos_float(x)
-            if abs(c - 0.5) < 1e-7 or abs(c - 0.8) < 1e-7: return None
+        for cc in [case] + [dict(case, V=p["V"]) for p in case.get("prior") or [] if p.get("V")]:
+            for x in edge_dq(cc, spec):
+                if x is None: continue
+                if x[1] == 0: return None
+                c = cos_float(x)
+                if abs(c - 0.5) < 1e-7 or abs(c - 0.8) < 1e-7: return None
     return case
 
 
@@ -611,6 +674,9 @@ def classify(case, obs):
             ks.append("cos:" + ("=0.5" if c == 0.5 else "=0.8" if c == 0.8 else "<0.5" if c < 0.5 else "0.5-0.8" if c < 0.8 else ">0.8"))
         ks.append("history:" + ("fresh-mesh" if not case.get("prior") else f"{len(case['prior'])}-earlier-runs"))
         if any(p.get("same_det") for p in case.get("prior") or []): ks.append("history:same-detector-object-reused")
+        for p in case.get("prior") or []:
+            if p.get("V"): ks.append("history:vertices-moved-between-runs:" + p.get("moved", "?"))
+            if p.get("other"): ks.append("history:run-on-another-mesh-in-between")
         if case.get("conn_clear"): ks.append("history:connectivity.clear()-before-run")
     ks += ["coords-as:" + case.get("vrep", "vec"), "ids-as:" + case.get("frep", "list")]
     if case["t"] == "f":
@@ -757,17 +823,42 @@ def _run_reset_site(tree):
     if sorted(passes) != sorted(["self._add_hard_edges_to_features", "self._add_sharp_angles_to_features", "self._add_border_to_features"]) \
             or min(n.lineno for n in asg) < ifs[0].lineno or any([ast.unparse(a) for a in n.value.args] != ["mesh", X] for n in asg):
         raise T.TranslateError(f"run(): the three passes are not applied once each to the opened attribute: {passes}")
-    return self_clear, edge_clear
+    # the normals: `if mesh.faces.has_attribute('normals'): self.fnormals = get_attribute  else: self.fnormals = face_normals(mesh, persistent=…)`
+    nifs = [st for st in ast.walk(run) if isinstance(st, ast.If) and ast.unparse(st.test).replace('"', "'") == "mesh.faces.has_attribute('normals')"]
+    if len(nifs) != 1: raise T.TranslateError("run(): `if mesh.faces.has_attribute('normals')` branch not found (or not unique)")
+    nb = [ast.unparse(x).replace('"', "'") for x in nifs[0].body]
+    if nb != ["self.fnormals = mesh.faces.get_attribute('normals')"] or len(nifs[0].orelse) != 1:
+        raise T.TranslateError(f"run(): unexpected normals branch {nb}")
+    el = nifs[0].orelse[0]
+    if not (isinstance(el, ast.Assign) and ast.unparse(el.targets[0]) == "self.fnormals" and isinstance(el.value, ast.Call)
+            and ast.unparse(el.value.func) == "face_normals" and [ast.unparse(a) for a in el.value.args][:1] == ["mesh"]):
+        raise T.TranslateError(f"run(): unexpected way of computing the normals: {ast.unparse(el)}")
+    # value of `persistent` at that call: keyword, 3rd positional argument, or the default in attr_faces.face_normals
+    ft, _ = T.load("mouette/attributes/attr_faces.py")
+    fdef = T.find_def(ft, "face_normals")
+    names = [a.arg for a in fdef.args.args]
+    if "persistent" not in names: raise T.TranslateError("face_normals has no `persistent` parameter")
+    k = names.index("persistent")
+    dflt = fdef.args.defaults[k - (len(names) - len(fdef.args.defaults))] if k >= len(names) - len(fdef.args.defaults) else None
+    val = None
+    for kw in el.value.keywords:
+        if kw.arg == "persistent": val = kw.value
+    if val is None and len(el.value.args) > k: val = el.value.args[k]
+    if val is None: val = dflt
+    if not (isinstance(val, ast.Constant) and isinstance(val.value, bool)):
+        raise T.TranslateError("run(): cannot tell whether face_normals is persistent")
+    return self_clear, edge_clear, bool(val.value)
 
 
 def translate():
     tree, src = T.load("mouette/processing/features.py")
     vals = {}
-    s3 = T.site("features.py: FeatureEdgeDetector.run/clear resets (self.clear() first; existing edge attribute 'feature' .clear()ed)",
-                lambda: vals.setdefault("resets", _run_reset_site(tree)) and {"self_clear": vals["resets"][0], "edge_clear": vals["resets"][1]})
-    sc, ec = vals.get("resets", (True, True))
-    T.write_generated("C15Run", "def runFlags : Mouette.Features.RunFlags := { selfClear := %s, edgeClear := %s }\nend Mouette.Generated.C15\n"
-                      % ("true" if sc else "false", "true" if ec else "false"), "import Mouette.Model.FeatRuns\nnamespace Mouette.Generated.C15\n")
+    s3 = T.site("features.py: FeatureEdgeDetector.run/clear resets (self.clear() first; existing edge attribute 'feature' .clear()ed; own normals not persistent)",
+                lambda: vals.setdefault("resets", _run_reset_site(tree)) and {"self_clear": vals["resets"][0], "edge_clear": vals["resets"][1],
+                                                                              "normals_persistent": vals["resets"][2]})
+    sc, ec, npers = vals.get("resets", (True, True, False))
+    T.write_generated("C15Run", "def runFlags : Mouette.Features.RunFlags := { selfClear := %s, edgeClear := %s, normalsPersistent := %s }\nend Mouette.Generated.C15\n"
+                      % tuple("true" if b else "false" for b in (sc, ec, npers)), "import Mouette.Model.FeatRuns\nnamespace Mouette.Generated.C15\n")
     s1 = T.site("features.py: _add_sharp_angles_to_features DOT_THRESHOLD / `dot(N1,N2) < DOT_THRESHOLD`",
                 lambda: vals.setdefault("sharp", _threshold_site(tree, src, "_add_sharp_angles_to_features", "DOT_THRESHOLD")) and {"value": str(vals["sharp"])})
     s2 = T.site("features.py: _add_hard_edges_to_features DOT_THRESHOLD / `dot(N1,N2) < 1 - DOT_THRESHOLD`",
